@@ -58,7 +58,7 @@ def _dec(fr: Fraction) -> str:
 
 def grid(thorough: bool) -> List[Tuple[str, str]]:
     out: List[Tuple[str, str]] = []
-    widths = [1, 2, 3, 7, 8, 9, 15, 16, 17, 31, 32, 33, 53, 54, 63, 64] if thorough else [1, 2, 8, 9, 32, 64]
+    widths = [1, 2, 3, 7, 8, 9, 15, 16, 17, 31, 32, 33, 53, 54, 63, 64] if thorough else [1, 2, 8, 9, 64]
     common_wrong = ["true", "false", "'a'", "'ab'", "''", "'\\u00e9'", "'\\u0080'", "'\\x7f'" if False else "'\\u007f'", "{1}", "\"0\""]
     for bits in widths:
         for kind in ("uint", "int"):
@@ -75,7 +75,10 @@ def grid(thorough: bool) -> List[Tuple[str, str]]:
                 for v in sorted(vals):
                     out.append((t, str(v) if v >= 0 else "-%d" % -v))
                 out += [(t, "%d.0" % hi), (t, "%d.5" % hi), (t, "%d.0000000000000000000000000000001" % hi), (t, "%d / 2" % (2 * hi)), (t, "%d / 2" % (2 * hi + 1)), (t, "(%d - 1 / 2)" % lo), (t, "1 / 2"), (t, "0.5"), (t, "1e0"), (t, "1e-1"), (t, "2 ** %d" % bits), (t, "2 ** %d - 1" % bits), (t, "-(2 ** %d)" % (bits - 1)), (t, "-(2 ** %d) - 1" % (bits - 1)), (t, "0x%X" % hi), (t, "0b1" + "0" * bits)]
-                out += [(t, w) for w in common_wrong]
+                if thorough or bits in (8, 64):
+                    out += [(t, w) for w in common_wrong]
+                else:
+                    out += [(t, w) for w in common_wrong[:3]]
     for bits in (16, 32, 64):
         m = FLOAT_MAX[bits]
         for cast in ("", "truncated ", "saturated ") if thorough else ("", "truncated "):
@@ -100,9 +103,33 @@ def rule_r5_texts(ctx: Ctx) -> None:
             raise AnalysisError("the grid holds an initializer without a value: %s (%s)" % (e, ex))
         plan.append((t, e, compliant(t, v)))
     n_acc = sum(1 for p in plan if p[2] is not None)
-    if n_acc < 150 or len(plan) - n_acc < 150:
+    if n_acc < 120 or len(plan) - n_acc < 120:
         raise AnalysisError("degenerate grid: %d accepted, %d rejected" % (n_acc, len(plan) - n_acc))
-    outs = fe.read_many([job_for({"K.1.0.dsdl": "%s X = %s\n@sealed\n" % (t, e)}) for t, e, _ in plan])
+    # the statements the Specification accepts are read one definition per type (one constant per line); if such a definition
+    # is rejected, its statements are read one by one; the others are read one by one from the start
+    by_type: Dict[str, List[int]] = {}
+    for i, (t, e, exp) in enumerate(plan):
+        if exp is not None:
+            by_type.setdefault(t, []).append(i)
+    singles = [i for i, p_ in enumerate(plan) if p_[2] is None]
+    batch_jobs = [job_for({"K.1.0.dsdl": "".join("%s X%d = %s\n" % (plan[i][0], n_, plan[i][1]) for n_, i in enumerate(idx)) + "@sealed\n"}) for idx in by_type.values()]
+    first = fe.read_many(batch_jobs + [job_for({"K.1.0.dsdl": "%s X = %s\n@sealed\n" % (plan[i][0], plan[i][1])}) for i in singles])
+    outs: List[Any] = [None] * len(plan)
+    for i, o in zip(singles, first[len(batch_jobs) :]):
+        outs[i] = o
+    retry: List[int] = []
+    for idx, o in zip(by_type.values(), first[: len(batch_jobs)]):
+        d = TextRun(o).by_name.get(("ns.K", (1, 0))) if o["raised"] is None else None
+        rows = {a["name"]: a for a in (d or {}).get("attributes", []) if a["kind"] == "Constant"}
+        if d is None or len(rows) != len(idx):
+            retry.extend(idx)
+            continue
+        for n_, i in enumerate(idx):
+            # the outcome of this statement alone: accepted, with this constant
+            outs[i] = {"raised": None, "types": [dict(d, attributes=[dict(rows["X%d" % n_], name="X")])], "path": None, "line": None}
+    if retry:
+        for i, o in zip(retry, fe.read_many([job_for({"K.1.0.dsdl": "%s X = %s\n@sealed\n" % (plan[i][0], plan[i][1])}) for i in retry])):
+            outs[i] = o
     ctx.count(len(plan))
     where = "pydsdl/_serializable/_attribute.py"
     wrongly_accepted, wrongly_rejected, wrong_value, wrong_class = [], [], [], []
